@@ -322,6 +322,9 @@ func genRef(r *vlib.R, emit func(string)) {
 func genXchg(r *vlib.R, emit func(string)) {
 	proto := vlib.Pick(r, []string{"udp", "udp", "tcp"})
 	qid := r.Intn(65536)
+	if r.Chance(1, 12) {
+		qid = vlib.Pick(r, []int{0, 1, 65535, 256})
+	}
 	zone := vlib.Pick(r, baseZones[1:])
 	qn := under(vlib.Pick(r, someLabels), zone)
 	qt := vlib.Pick(r, []int{1, 28, 2, 16})
@@ -336,7 +339,7 @@ func genXchg(r *vlib.R, emit func(string)) {
 		case 0: // the genuine reply (case echoed differently)
 			name = flipCase(r, qn)
 		case 1: // wrong id
-			id = (qid + vlib.Pick(r, []int{1, 65535, 256, 0x5a5a})) % 65536
+			id = wrongID(r, qid)
 			if r.Chance(1, 2) {
 				name = flipCase(r, qn)
 			}
@@ -361,7 +364,7 @@ func genXchg(r *vlib.R, emit func(string)) {
 		case 8:
 			return "s"
 		case 9: // wrong id AND wrong name
-			id = (qid + 1) % 65536
+			id = wrongID(r, qid)
 			name = "www.victim.test."
 		}
 		if !packable(name) {
@@ -393,6 +396,36 @@ func genXchg(r *vlib.R, emit func(string)) {
 		cands = append(cands, mk(r.Intn(10)))
 	}
 	emit(fmt.Sprintf("xchg run %s %d %s %s", proto, qid, q, strings.ReplaceAll(listOrDash(cands), ",", ";")))
+}
+
+// wrongID: an ID other than qid - neighbours, special values (0, 0xffff), byte swaps, single-bit flips.
+func wrongID(r *vlib.R, qid int) int {
+	for {
+		var id int
+		switch r.Intn(9) {
+		case 0:
+			id = 0
+		case 1:
+			id = 65535
+		case 2:
+			id = (qid + 1) % 65536
+		case 3:
+			id = (qid + 65535) % 65536
+		case 4:
+			id = ((qid & 0xff) << 8) | (qid >> 8)
+		case 5:
+			id = qid ^ (1 << uint(r.Intn(16)))
+		case 6:
+			id = qid & 0xff
+		case 7:
+			id = qid & 0xff00
+		default:
+			id = r.Intn(65536)
+		}
+		if id != qid {
+			return id
+		}
+	}
 }
 
 // hdrFlags: header bits the exchange guards must not be swayed by (TC above all).
@@ -643,6 +676,25 @@ func genL3(r *vlib.R, tier string, emit func(string)) {
 			world(mode, vlib.Pick(r, []int{0, 3}), shapes[:n])
 			shapes = shapes[n:]
 		}
+	}
+	// ipv6access = true: AAAA glue, and the detached IPv6 enrichment job that looks up the AAAA set of every
+	// name server without accepted AAAA glue two (real) seconds after the referral - one settle per world
+	flavour = "plain+v6"
+	for _, mode := range []string{"cold", "warm"} {
+		v6shapes := []string{"nsaddr6-loop", "nsaddr6-mapped-loop", "nsaddr6-local", "nsaddr6-foreign", "nsaddr6-honest", "glue6-loop", "glue-loop", "glue-local", "nsaddr-extra", "glue-oob"}
+		for i := len(v6shapes) - 1; i > 0; i-- {
+			j := r.Intn(i + 1)
+			v6shapes[i], v6shapes[j] = v6shapes[j], v6shapes[i]
+		}
+		emit(fmt.Sprintf("l3 new %s %d %s", mode, vlib.Pick(r, []int{0, 3}), flavour))
+		for i, s := range v6shapes {
+			emit(fmt.Sprintf("l3 attack %s %d", s, 1+i%8))
+		}
+		emit("l3 settle 2300")
+		for _, v := range victimNames[:4] {
+			emit(fmt.Sprintf("l3 victim %s %s", v.n, typeName(v.t)))
+		}
+		emit("l3 audit")
 	}
 	flavour = "sec"
 	for _, mode := range []string{"cold", "warm"} {
@@ -1044,10 +1096,16 @@ func facts() map[string]any {
 		"shape_answer_filters_before_splice": filterBeforeSplice(rfile),
 		// every write to rs.level is "the label count of the zone now asked" or a minimisation step upwards
 		"shape_level_is_zone_depth": levelWrites(rfile),
-		"in_zone_probe":             inZone,
-		"question_match_probe":      qm,
-		"progressing_probe":         prog,
-		"compare_suffix_probe":      cmp,
+		// both NS-address lookup paths take their addresses from searchAddrs (the one place that applies usableAddr) and build none themselves
+		"shape_nsaddr_lookups_use_searchAddrs": func() bool {
+			a := callOrder(rfile, "lookupNSAddrV4", "searchAddrs", "AddrFromSlice", "AddrFrom4", "AddrFrom16")
+			b := callOrder(rfile, "lookupNSAddrV6", "searchAddrs", "AddrFromSlice", "AddrFrom4", "AddrFrom16")
+			return a[0] >= 0 && b[0] >= 0 && a[1] < 0 && a[2] < 0 && a[3] < 0 && b[1] < 0 && b[2] < 0 && b[3] < 0
+		}(),
+		"in_zone_probe":        inZone,
+		"question_match_probe": qm,
+		"progressing_probe":    prog,
+		"compare_suffix_probe": cmp,
 	}
 }
 
